@@ -56,8 +56,6 @@ TYPES = {"str": str, "int": int, "float": float}
 
 
 def _define(case):
-    import typing as ty  # noqa
-
     from fileformats.generic import File
     from pydra.compose import shell
     from pydra.utils.typing import MultiOutputFile
